@@ -361,6 +361,15 @@ def check(run):
                 nbad = nbad or b
         run.obligation("three-node network of real robustirc processes: %d scenarios, %d acknowledged messages, %d kills/restarts/snapshots; every node delivers every acknowledged message exactly once, in order, and all nodes the same sequence" % (nnet, net_acked, net_faults),
                        nbad is None, nbad[1] if nbad else "")
+    # the store contract the composition rests on (C09's differential, reduced): FSM.Snapshot / Persist / Restore read the log
+    # copy through FirstIndex / LastIndex / GetLog / GetBulkIterator and compact it with DeleteRange
+    import C09
+    sok, scorr, sbad, sops, sdi, _ = C09.store_stage(run, 60 if run.tier == "quick" else 600, 40, 4, "store contract under the log copy (reduced C09 differential incl. the bulk iterator Persist reads with)")
+    evals += len(sops)
+    if sbad:
+        run.violation("oracle:store:" + sbad[0].split(" ")[0], sbad[0], {"kind": "store", "ops": sbad[1], "why": sbad[0]}, True)
+    elif sok and not scorr and not bad and not nbad:
+        run.violation("broken:store-correspondence", "the log store no longer behaves like its model", {"kind": "store", "ops": sops[:sdi + 1][-40:] if sdi is not None else [], "why": "store correspondence"}, False)
     for b, kind in ((bad, "api"), (nbad, "net")):
         if b:
             sig, why, rops = b
@@ -385,6 +394,9 @@ def replay(run, path):
     r = json.load(open(path))
     rp = r.get("replay", {})
     ops = rp.get("ops", [])
+    if rp.get("kind") == "store":
+        import C09
+        return C09.replay(run, path)
     if rp.get("kind") == "net":
         okn, nexe, bindir, nout = build_net(run)
         gl, err = run_net(nexe, bindir, ops, timeout=600)
